@@ -55,6 +55,10 @@ func (e *Engine) runPath(st *State) {
 				e.unsupported[e.curFn] = append(e.unsupported[e.curFn], u.msg)
 				return
 			}
+			if u, ok := r.(specErr); ok {
+				e.unsupported[e.curFn] = append(e.unsupported[e.curFn], "contract error: "+u.msg)
+				return
+			}
 			panic(r)
 		}
 	}()
@@ -775,7 +779,7 @@ func (st *State) indexAddr(fr *Frame, x *ssa.IndexAddr) Val {
 	st.oblige("safety", "index", e.curProps, fmt.Sprintf("(and (<= 0 %s) (< %s %s))", idx, idx, ln), x.Pos())
 	pos := idx
 	if off != "0" {
-		pos = fmt.Sprintf("(+ %s %s)", off, idx)
+		pos = fmt.Sprintf("(slot %s %s)", off, idx)
 	}
 	var p *Ptr
 	if _, isStruct := et.Underlying().(*types.Struct); isStruct && !isTimeTime(et) && !e.opaqueStruct(et) {
@@ -864,7 +868,7 @@ func (st *State) makeSlice(t types.Type, ln, cp Val, pos token.Pos) Val {
 func (st *State) sliceElemPtr(s Val, i string) *Ptr {
 	e := st.e
 	et := s.T.Underlying().(*types.Slice).Elem()
-	pos := fmt.Sprintf("(+ %s %s)", s.C[1], i)
+	pos := fmt.Sprintf("(slot %s %s)", s.C[1], i)
 	if s.C[1] == "0" {
 		pos = i
 	}
